@@ -17,8 +17,8 @@ type vfExpr struct {
 	name string // column or function name
 }
 
-func vfConst(l vfLit) *vfExpr        { return &vfExpr{op: "const", lit: l} }
-func vfColRef(name string) *vfExpr   { return &vfExpr{op: "col", name: name} }
+func vfConst(l vfLit) *vfExpr              { return &vfExpr{op: "const", lit: l} }
+func vfColRef(name string) *vfExpr         { return &vfExpr{op: "col", name: name} }
 func vfOp(op string, a ...*vfExpr) *vfExpr { return &vfExpr{op: op, args: a} }
 
 var vfOpText = map[string]string{"is": "is", "isnt": "isnt", "lt": "<", "lte": "<=", "gt": ">", "gte": ">=",
@@ -32,7 +32,9 @@ func (e *vfExpr) isCmp() bool {
 	return false
 }
 
-func (e *vfExpr) atom() bool { return e.op == "const" || e.op == "col" || e.op == "call" || e.op == "paren" }
+func (e *vfExpr) atom() bool {
+	return e.op == "const" || e.op == "col" || e.op == "call" || e.op == "paren"
+}
 
 // operand prints a sub expression, parenthesized unless it is an atom.
 func (e *vfExpr) operand() string {
